@@ -396,7 +396,8 @@ impl DomainParticipantEntity {
                 self.topic_counter.to_ne_bytes()[1],
                 USER_DEFINED_TOPIC,
             ]);
-            self.topic_counter += 1;
+            // no handle left for a discovered topic: treat it as not (yet) found
+            self.topic_counter = self.topic_counter.checked_add(1)?;
             let status_condition = DcpsStatusCondition::default();
             let mut topic = TopicEntity::new(
                 qos,
